@@ -253,12 +253,17 @@ theorem file_step (h : HooksG) (inner : Inner) (hnvar : NvarOk h) (fuel : Nat)
   refine post_bind' (R := fun r _ => match r with
       | some i => i.dataOffset = 24 ∨ i.dataOffset = 32 | none => True) ?_ ?_
   · split
-    · refine post_bind (post_binaryReadG ?_)
-      intro _
-      try simp only []
-      split
-      · exact post_pure trivial
-      · exact post_pure (Or.inr rfl)
+    · split
+      · refine post_bind (post_sliceToG (by omega) ?_)
+        split
+        · exact post_pure trivial
+        · exact post_err
+      · refine post_bind (post_binaryReadG ?_)
+        intro _
+        try simp only []
+        split
+        · exact post_pure trivial
+        · exact post_pure (Or.inr rfl)
     · exact post_pure (Or.inl rfl)
   · intro hr m1 hdo
     split
